@@ -13,9 +13,9 @@ import sys
 from harness import coqio as q
 
 ID = "C11"
-COQ_REQUIRE = ["M_RelKinds"]
-COQ_CASE_TYPE = "list M_RelKinds.case"
-COQ_CHECK = "(forallb M_RelKinds.check_case)"
+COQ_REQUIRE = ["M_RelKinds", "M_RelKinds2"]
+COQ_CASE_TYPE = "list M_RelKinds2.case2"
+COQ_CHECK = "(forallb M_RelKinds2.check_case2)"
 OBLIGATIONS = ["call_forms_agree", "slice_spec", "slice_compose", "matrix_slice_order_irrelevant",
                "expr_value_set_order_irrelevant", "mk_fun_wf", "mk_mat_wf", "cond_slice_true_partial",
                "cond_slice_false_neutral_partial", "cond_false_zeroary_refuted",
@@ -261,6 +261,7 @@ def gen_sub(rng):
     wf = finish_spec(rng, spec, doms, malformed) and wf
     names = sorted(spec_vars(spec))
     remaining = list(names)
+    rems = [list(names)]        # rems[i] = variables of relation number i of the chain (0 = as built)
     steps = []
     valid = wf
     for _ in range(rng.choice([0, 1]) if focus else rng.choice([0, 1, 1, 2, 2, 3])):
@@ -288,6 +289,7 @@ def gen_sub(rng):
             p = [[v, rng.choice(doms[str(v)])] for v in keys]
         steps.append(p)
         remaining = [v for v in remaining if v not in [k for k, _ in p]]
+        rems.append(list(remaining))
     # completions of the remaining variables
     comps = [[]]
     for v in remaining:
@@ -313,7 +315,30 @@ def gen_sub(rng):
             base = [[6, 1]] + base[1:]
         if dict(c=base, full=False) not in probes:
             probes.append(dict(c=base, full=False))
-    return dict(doms=doms, spec=spec, steps=steps, probes=probes, wf=wf, valid=valid)
+    # slicing TREE (relations must not be changed by slicing them): intermediate relations of the chain are
+    # probed again after all the later slices were taken, and a second slice is taken from one of them
+    inter, branch = [], []
+    if steps and valid:
+        def some_comps(rem, k):
+            cs = [[]]
+            for v in rem:
+                cs = [c + [[v, x]] for c in cs for x in doms[str(v)]]
+            cs = rng.sample(cs, k) if len(cs) > k else cs
+            out = []
+            for c in cs:
+                c = list(c)
+                rng.shuffle(c)
+                out.append(dict(c=c, full=True))
+            return out
+        for i in range(len(steps)):
+            if rng.random() < 0.5:
+                inter.append(dict(i=i, probes=some_comps(rems[i], 2)))
+        if rng.random() < 0.4:
+            i = rng.randrange(len(steps))
+            keys = rng.sample(rems[i], min(rng.choice([1, 1, 2]), len(rems[i])))
+            qd = [[v, rng.choice(doms[str(v)])] for v in keys]
+            branch.append(dict(i=i, q=qd, probes=some_comps([v for v in rems[i] if v not in keys], 2)))
+    return dict(doms=doms, spec=spec, steps=steps, probes=probes, wf=wf, valid=valid, inter=inter, branch=branch)
 
 
 def gen(rng, n, tier):
@@ -402,16 +427,38 @@ def _drive_sub(sub):
     except Exception as e:
         obs["built"] = {"err": type(e).__name__}
         return obs
+    chain = [r]
     for p in sub["steps"]:
         try:
             r = r.slice({name(k): x for k, x in p})
             obs["sliced"].append({"ok": [ident(v.name) for v in r.dimensions]})
+            chain.append(r)
         except Exception as e:
             obs["sliced"].append({"err": type(e).__name__})
             return obs
+    obs["probes"] = _probe(R, r, sub["probes"])
+    # slicing tree: second slices from intermediate relations, then the intermediate relations again
+    obs["branch"], obs["inter"] = [], []
+    for b in sub.get("branch", []):
+        if b["i"] >= len(chain):
+            obs["branch"].append(None)
+            continue
+        try:
+            rb = chain[b["i"]].slice({name(k): x for k, x in b["q"]})
+            obs["branch"].append({"sliced": {"ok": [ident(v.name) for v in rb.dimensions]},
+                                  "probes": _probe(R, rb, b["probes"])})
+        except Exception as e:
+            obs["branch"].append({"sliced": {"err": type(e).__name__}, "probes": []})
+    for it in sub.get("inter", []):
+        obs["inter"].append(_probe(R, chain[it["i"]], it["probes"]) if it["i"] < len(chain) else None)
+    return obs
+
+
+def _probe(R, r, probes):
+    out = []
     dims = [ident(v.name) for v in r.dimensions]
     dict_call = isinstance(r, (R.NAryFunctionRelation, R.ConditionalRelation))
-    for pr in sub["probes"]:
+    for pr in probes:
         c = pr["c"]
         kw = {name(k): x for k, x in c}
         rkw = {name(k): x for k, x in reversed(c)}
@@ -424,8 +471,8 @@ def _drive_sub(sub):
                  ["gvlist", pos, _canon(lambda: r.get_value_for_assignment(list(pos)))]]
         if dict_call:
             forms.append(["calldict", c, _canon(lambda: r(dict(kw)))])
-        obs["probes"].append(forms)
-    return obs
+        out.append(forms)
+    return out
 
 
 def _main():
@@ -470,8 +517,9 @@ def defval(s, a, doms, params_obs, tag=""):
     return _eval(s["body"], {p: a[v] for p, v in zip(params, s["vars"])})
 
 
-def _finding(sub, upto, params_obs):
-    """precise predicates of the recorded findings (None = not an instance)"""
+def _finding(sub, upto, params_obs, extra=()):
+    """precise predicates of the recorded findings (None = not an instance); the relation looked at is the
+    one obtained by the steps [0..upto] and then by slicing on `extra`"""
     s = sub["spec"]
     if s["k"] != "cond" or not sub["valid"] or s["rn"]:
         return None
@@ -480,6 +528,7 @@ def _finding(sub, upto, params_obs):
     sliced = {}
     for p in sub["steps"][:upto + 1]:
         sliced.update({k: x for k, x in p})
+    sliced.update({k: x for k, x in extra})
     cvars = spec_vars(s["c"])
     if any(v not in sliced for v in cvars):
         return None
@@ -631,6 +680,45 @@ def sub_failures(sub, o):
                 out.append(("after slicing %r the %s form on %r gives %r, the definition gives %r on %r"
                             % (sub["steps"], form, args, res, exp, a), _finding(sub, len(sub["steps"]), o["params"])))
                 return out
+    # slicing tree: a relation is not changed by slicing it
+    def values(probes, obs_probes, base, what, fid):
+        for pr, forms in zip(probes, obs_probes):
+            a = dict(base)
+            a.update({k_: x for k_, x in pr["c"]})
+            exp = defval(s, a, sub["doms"], o["params"])
+            for form, args, res in forms:
+                if res != {"ok": exp}:
+                    return [("%s: the %s form on %r gives %r, the definition gives %r on %r"
+                             % (what, form, args, res, exp, a), fid)]
+        return []
+    for it, ob in zip(sub.get("inter", []), o.get("inter", [])):
+        if ob is None:
+            return [("relation number %d of the chain was not probed" % it["i"], None)]
+        base = {}
+        for p in sub["steps"][:it["i"]]:
+            base.update({k_: x for k_, x in p})
+        out = values(it["probes"], ob, base, "relation number %d of the chain %r, probed after the later slices"
+                     % (it["i"], sub["steps"]), _finding(sub, it["i"] - 1, o["params"]))
+        if out:
+            return out
+    for b, ob in zip(sub.get("branch", []), o.get("branch", [])):
+        if ob is None:
+            return [("no second slice taken from relation number %d" % b["i"], None)]
+        base = {}
+        for p in sub["steps"][:b["i"]]:
+            base.update({k_: x for k_, x in p})
+        fid = _finding(sub, b["i"] - 1, o["params"], b["q"])
+        what = "second slice %r of relation number %d of the chain %r" % (b["q"], b["i"], sub["steps"])
+        base.update({k_: x for k_, x in b["q"]})
+        exp_set = [v for v in names if v not in base]
+        if "err" in ob["sliced"]:
+            return [("%s raised %s" % (what, ob["sliced"]["err"]), fid)]
+        if sorted(ob["sliced"]["ok"]) != exp_set:
+            return [("%s: dimensions %r, expected exactly the remaining variables %r"
+                     % (what, ob["sliced"]["ok"], exp_set), fid)]
+        out = values(b["probes"], ob["probes"], base, what, fid)
+        if out:
+            return out
     return out
 
 
@@ -714,12 +802,21 @@ def _sub_term(sub, o):
     steps = q.lst([q.zzdict([tuple(kv) for kv in p]) for p in sub["steps"]])
     built = _res(o["built"], q.zlist)
     sliced = q.lst([_res(x, q.zlist) for x in o["sliced"]])
-    probes = []
-    for form, args, res in [x for forms in o["probes"] for x in forms]:
-        c, pr = FORMS[form]
-        probes.append("%s %s %s" % (c, pr([tuple(a) for a in args] if form in ("kw", "gvdict", "calldict") else args),
-                                    _res(res, q.z)))
-    return "(mkCase %s %s %s %s %s)" % (spec, steps, built, sliced, q.lst(probes))
+    def probes_term(obs_probes):
+        probes = []
+        for form, args, res in [x for forms in obs_probes for x in forms]:
+            c, pr = FORMS[form]
+            probes.append("%s %s %s" % (c, pr([tuple(a) for a in args] if form in ("kw", "gvdict", "calldict") else args),
+                                        _res(res, q.z)))
+        return q.lst(probes)
+
+    base = "(mkCase %s %s %s %s %s)" % (spec, steps, built, sliced, probes_term(o["probes"]))
+    inter = ["(%s, %s)" % (q.nat(it["i"]), probes_term(ob))
+             for it, ob in zip(sub.get("inter", []), o.get("inter", [])) if ob is not None]
+    branch = ["(%s, %s, %s, %s)" % (q.nat(b["i"]), q.zzdict([tuple(kv) for kv in b["q"]]),
+                                    _res(ob["sliced"], q.zlist), probes_term(ob["probes"]))
+              for b, ob in zip(sub.get("branch", []), o.get("branch", [])) if ob is not None]
+    return "(mkCase2 %s %s %s)" % (base, q.lst(inter), q.lst(branch))
 
 
 def coq_case(case, obs):
@@ -756,6 +853,8 @@ def histogram(cases, obs):
             h["kind_" + kd] = h.get("kind_" + kd, 0) + 1
             h["steps_%d" % len(s["steps"])] = h.get("steps_%d" % len(s["steps"]), 0) + 1
             h["probes"] += sum(len(x) for x in o.get("probes", []))
+            h["inter_probed"] = h.get("inter_probed", 0) + len([x for x in o.get("inter", []) if x is not None])
+            h["second_slices"] = h.get("second_slices", 0) + len([x for x in o.get("branch", []) if x is not None])
             if not s["valid"]:
                 h["malformed"] += 1
             for x in [o.get("built", {})] + o.get("sliced", []):
@@ -776,6 +875,8 @@ def shrink_candidates(case):
             d = dict(s)
             d["steps"] = s["steps"][:-1]
             d["probes"] = []
+            d["inter"] = [x for x in s.get("inter", []) if x["i"] < len(d["steps"])]
+            d["branch"] = [x for x in s.get("branch", []) if x["i"] < len(d["steps"])]
             yield dict(hs=case["hs"], subs=[d])
     if len(s["probes"]) > 1:
         for pr in s["probes"]:
